@@ -16,7 +16,7 @@ SPEC = dict(
             _e("c25_ends", "blocks b b LF 'X: y' CRLF | 'X: y' CRLF b b CRLF | every block of 0..3 fully symbolic bytes" + _cfg,
                _lab("head", "tail", "any") + ["accepted-empty"]),
             _e("c25_framing", "blocks N ': 1' b '0' CRLF b ':2' CRLF with N in {Content-Length, Transfer-Encoding, cONTENT-lENGTH} | two fields from the pool "
-               "{X: a, Content-Length: 7, Transfer-Encoding: chunked, Host: h} the second possibly 'Content-Length: ' b" + _cfg, _lab("framing", "dup")),
+               "{X: a, Content-Length: 7, Transfer-Encoding: chunked, Host: h} the second possibly 'Content-Length: ' b | N ':' CRLF b '10' CRLF 'X: y' CRLF and N ': 10' CRLF b b CRLF 'X: y' CRLF (a fold at the edge of the framing value)" + _cfg, _lab("framing", "dup", "framingEdge")),
             dict(name="c25_known_reply_ws_colon", known=True, reach=[], max_samples=0, sample_every=0, bounds="KNOWN FINDING C25-reply-ws-before-colon only: reply blocks 'Host' b ':v' CRLF 'X: y' CRLF whose symbolic byte is whitespace before the colon, with the literal assertion 'rejected'; violations are listed in known_findings.json and printed as KNOWN-FINDING"),
         ],
         thorough=[
@@ -26,7 +26,7 @@ SPEC = dict(
             _e("c25_ends", "blocks b b b LF 'X: y' CRLF | 'X: y' CRLF b b b LF | every block of 0..4 fully symbolic bytes" + _cfg,
                _lab("head", "tail", "any") + ["accepted-empty"]),
             _e("c25_framing", "blocks N ': 1' b '0' b LF b ':2' CRLF with N in {Content-Length, Transfer-Encoding, cONTENT-lENGTH, Host} | three fields from the pool "
-               "{X: a, Content-Length: 7, Transfer-Encoding: chunked, Host: h} the second possibly 'Content-Length: ' b" + _cfg, _lab("framing", "dup")),
+               "{X: a, Content-Length: 7, Transfer-Encoding: chunked, Host: h} the second possibly 'Content-Length: ' b | N ':' CRLF b '10' CRLF 'X: y' CRLF and N ': 10' CRLF b b CRLF 'X: y' CRLF (a fold at the edge of the framing value)" + _cfg, _lab("framing", "dup", "framingEdge")),
             dict(name="c25_known_reply_ws_colon", known=True, reach=[], max_samples=0, sample_every=0, bounds="KNOWN FINDING C25-reply-ws-before-colon only: reply blocks 'Host' b ':v' CRLF 'X: y' CRLF whose symbolic byte is whitespace before the colon, with the literal assertion 'rejected'; violations are listed in known_findings.json and printed as KNOWN-FINDING"),
         ]),
     timeout=dict(quick=900, thorough=3000),
